@@ -52,6 +52,8 @@ type Config struct {
 	// as Broken). Atomics, channel operations, watched fields and waits always
 	// remain switch points.
 	LockDominance bool
+	// Observer is called for every event (after it was recorded).
+	Observer func(tid int, kind string, obj any)
 	// KeepTimers: when false (default) pending timers at quiescence are fired
 	// (time passes); when true the execution ends with timers pending.
 	KeepTimers bool
@@ -157,6 +159,23 @@ func Event(kind string, obj any, extra uint64) {
 		return
 	}
 	s.event(s.cur.cname, &s.cur.nev, kind, obj, extra)
+	if s.cfg.Observer != nil {
+		s.cfg.Observer(s.cur.id, kind, obj)
+	}
+}
+
+// Holding reports whether the running thread holds lock obj.
+func Holding(obj any) bool {
+	s := active
+	if s == nil || s.cur == nil {
+		return false
+	}
+	for _, h := range s.cur.held {
+		if h == obj {
+			return true
+		}
+	}
+	return false
 }
 
 func (s *Sched) event(actor uint64, nev *uint64, kind string, obj any, extra uint64) {
@@ -246,6 +265,9 @@ func (s *Sched) newThread(name string, f func()) *thread {
 		t.cname = 1
 	}
 	s.threads = append(s.threads, t)
+	if s.cfg.Observer != nil && s.cur != nil {
+		s.cfg.Observer(s.cur.id, "spawn", t.id)
+	}
 	go func() {
 		<-t.wake
 		defer close(t.exited)
@@ -468,7 +490,7 @@ func (s *Sched) reschedule() {
 // the shim when it completes, not at the scheduling point.
 func deferredEffect(kind string) bool {
 	switch kind {
-	case "lock", "rlock", "wlock", "once", "trylock", "trywlock", "tryrlock", "send", "recv", "select", "wg.wait", "cond.wait", "sleep", "close":
+	case "lock", "rlock", "wlock", "once", "trylock", "trywlock", "tryrlock", "send", "recv", "select", "wg.wait", "cond.wait", "sleep", "close", "acq", "rel":
 		return true
 	}
 	return false
@@ -508,6 +530,9 @@ func Acquired(obj any) {
 	}
 	t.held = append(t.held, obj)
 	s.event(t.cname, &t.nev, "acq", obj, 0)
+	if s.cfg.Observer != nil {
+		s.cfg.Observer(t.id, "acq", obj)
+	}
 }
 
 // Released records that lock obj was released.
@@ -644,6 +669,15 @@ func Now() time.Time {
 		return time.Now()
 	}
 	s.now++
+	return time.Unix(0, s.now)
+}
+
+// NowPeek reads the virtual clock without advancing it.
+func NowPeek() time.Time {
+	s := active
+	if s == nil {
+		return time.Now()
+	}
 	return time.Unix(0, s.now)
 }
 
